@@ -527,7 +527,9 @@ func GenC02(r *Rng, n int, tier string) []PipeIn {
 		if r.Chance(1, 8) {
 			cfg.Matcher = Pick(r, []string{"always", "default", "default"})
 		} else if r.Chance(1, 5) {
-			cfg.Matcher = Pick(r, []string{"dissect:%{a} %{b}", "dissect:k=%{v};", "dissect:%{a}:%{b}:%{c}", "dissecti:k=%{v};", "dissecti:ID=%{id} user=%{u};", "dissecti:ID=%{id} user=%{u};"})
+			cfg.Matcher = Pick(r, []string{"dissect:%{a} %{b}", "dissect:k=%{v};", "dissect:%{a}:%{b}:%{c}", "dissecti:k=%{v};", "dissecti:ID=%{id} user=%{u};", "dissecti:ID=%{id} user=%{u};",
+				// literals that overlap themselves: a partial occurrence right before the real one (===> / :::1 / aab) must not hide it
+				"dissecti:%{task}==>%{state}", "dissecti:%{h}::1 %{rest}", "dissect:%{task}==>%{state}", "dissecti:%{x}aab%{y}"})
 		}
 		cfg.HoldAll = true
 		in := PipeIn{Cfg: cfg}
@@ -557,6 +559,16 @@ func GenC02(r *Rng, n int, tier string) []PipeIn {
 			mk = func() []byte {
 				var b []byte
 				for i, n := 0, r.Intn(9); i < n; i++ {
+					b = append(b, pieces[r.Intn(len(pieces))]...)
+				}
+				return b
+			}
+		}
+		if strings.Contains(cfg.Matcher, "==>") || strings.Contains(cfg.Matcher, "::1") || strings.Contains(cfg.Matcher, "aab") {
+			pieces := []string{"=", "==", "==>", "===>", "=>", " ", "link", "done", "warn", ":", "::", "::1", ":::1", " ", "1", "a", "aa", "aab", "AAB", "aAab", "b", "=>=", "==>>"}
+			mk = func() []byte {
+				var b []byte
+				for i, n := 0, r.Intn(8); i < n; i++ {
 					b = append(b, pieces[r.Intn(len(pieces))]...)
 				}
 				return b
